@@ -373,7 +373,7 @@ func ruleFieldPathSingular(r *Run) {
 				if seq == nil {
 					continue
 				}
-				for _, so := range p.origins(seq, originOpts{}) {
+				for _, so := range p.origins(seq, originOpts{throughSlice: true}) {
 					if f := loadedField(so); f != nil {
 						if why, ok := validated[f]; ok {
 							src = why
